@@ -16,9 +16,12 @@ NOFUZZY = ["term", "every", "null", "prefix", "wildcard", "termrange", "numrange
            "dismax", "andnot", "andmaybe", "require", "not", "const"]
 
 
+import os
+DEBUG = bool(os.environ.get('VERIF_DEBUG'))
 ALTS = [("and-absorbs-fielded-every", patches.and_keeps_clauses_next_to_fielded_every),
         ("and-of-nested-ranges-keeps-outer", patches.nested_ranges_intersect_to_inner),
-        ("and-normalize-both-findings", patches.both_and_normalize_findings)]
+        ("and-range-intersection-unsound-for-multivalued-fields", patches.and_does_not_merge_ranges),
+        ("and-normalize-both-findings", patches.and_normalize_every_and_ranges)]
 
 
 def range_compound(rng):
@@ -95,7 +98,11 @@ def check(run):
                         try:
                             rq = fn()
                             ids = sorted(int(d) for d in s.docs_for_query(rq))
-                            o = {"kind": "ids", "path": label, "ids": ids}
+                            o = {"kind": "ids", "path": label, "ids": ids, "rq": repr(rq)[:400]}
+                            if DEBUG and label == "normalize":
+                                again = sorted(int(d) for d in s.docs_for_query(world.to_query(aq).normalize()))
+                                if again != ids:
+                                    print("DEBUG-NONDET", aq, ids, again, repr(q), repr(rq))
                             for cls, patch in ALTS:
                                 try:
                                     with patch():
@@ -108,8 +115,15 @@ def check(run):
                                             "value": bool(repr(rq.normalize()) == repr(rq) or rq.normalize() == rq)})
                                 obs.append({"kind": "atleast", "path": "estimate_size",
                                             "n": int(q.estimate_size(s.reader()))})
-                                obs.append({"kind": "atleast", "path": "normalized.estimate_size",
-                                            "n": int(rq.estimate_size(s.reader()))})
+                                oe = {"kind": "atleast", "path": "normalized.estimate_size",
+                                      "n": int(rq.estimate_size(s.reader()))}
+                                for cls, patch in ALTS:
+                                    try:
+                                        with patch():
+                                            oe.setdefault("alts", {})[cls] = int(fn().estimate_size(s.reader()))
+                                    except Exception:
+                                        pass
+                                obs.append(oe)
                         except Exception as ex:
                             obs.append({"kind": "error", "path": label, "err": type(ex).__name__, "msg": str(ex)[:150]})
                         run.count()
@@ -124,6 +138,12 @@ def check(run):
     extra = {}
     for ci, qi, oi, exp in rejects:
         o = cases[ci]["qs"][qi]["obs"][oi]
+        if o["kind"] == "atleast":
+            for cls, _ in ALTS:
+                alt = o.get("alts", {}).get(cls)
+                if alt is not None and alt >= exp.get("n", 1 << 60) and alt != o["n"]:
+                    extra[(ci, qi, oi)] = cls
+                    break
         if o["kind"] == "ids":
             for cls, _ in ALTS:
                 alt = o.get("alts", {}).get(cls)
